@@ -49,7 +49,19 @@ func (fam *Family) wiringFamily() ([]byte, error) {
 		inst = parts[2]
 	}
 	inner, leaf := "", "leaf"
+	useB := false // the list runs through slot b
 	switch walker {
+	case "navnode":
+		inner = "node"
+	case "outline":
+		inner, useB = "item", inst == "" // /Next; "outline:first" descends through /First
+		inst = ""
+	case "filters":
+		inner = "jbig2"
+	case "resolve":
+		inner = "ref"
+	case "xref":
+		inner = "table"
 	case "decode":
 		inner = "perm"
 		if di := decodeInst(inst); di != nil {
@@ -109,7 +121,28 @@ func (fam *Family) wiringFamily() ([]byte, error) {
 			}
 		}
 	default:
-		return nil, fmt.Errorf("bad family %q", fam.Name)
+		// rho-T-L: a tail of T nodes, then a loop of L nodes
+		var T, Lp int
+		if _, err := fmt.Sscanf(shape, "rho-%d-%d", &T, &Lp); err != nil || Lp < 1 {
+			return nil, fmt.Errorf("bad family %q", fam.Name)
+		}
+		w.N = T + Lp
+		for i := 1; i <= w.N; i++ {
+			next := i + 1
+			if i == w.N {
+				next = T + 1
+			}
+			if useB {
+				add(inner, 0, next)
+			} else {
+				add(inner, next, 0)
+			}
+		}
+	}
+	if walker == "xref" {
+		for i := range w.B {
+			w.B[i] = 0
+		}
 	}
 	variant := 0
 	if fam.XS {
@@ -123,6 +156,23 @@ func (fam *Family) wiringFamily() ([]byte, error) {
 		return nil, fmt.Errorf("family %q cannot be rendered", fam.Name)
 	}
 	return data, nil
+}
+
+// RhoFamilies lists the rho-shaped lists: every list-shaped walker x tail 0..3 x loop 1..3.
+func RhoFamilies() []string {
+	lists := []string{"navnode", "outline", "outline:first", "resolve", "filters", "xref", "parents", "objwalk", "fields", "nametree:num", "pages"}
+	for _, di := range DecodeInsts {
+		lists = append(lists, "decode:"+di.Name)
+	}
+	var out []string
+	for _, l := range lists {
+		for t := 0; t <= 3; t++ {
+			for lp := 1; lp <= 3; lp++ {
+				out = append(out, fmt.Sprintf("wire:%s:rho-%d-%d", l, t, lp))
+			}
+		}
+	}
+	return out
 }
 
 // WiringFamilies lists the large wirings the exploration adds.
